@@ -174,13 +174,13 @@ def worker(job):
             nm, c, p, s = triples[0]
             part.sample(dict(kind=nm, control_len=len(c), path_len=(len(c) - 33) // 32, control_head=c[:33].hex(), program=p.hex(), script=s.hex()[:80]), limit=1)
         # sessions: the commitment phase attached to a script session (steps, leaf hash in the execution data)
-        if kind == 'valid':
+        if True:
             sess = []
-            for i, (nm, c, p, s) in enumerate(triples[:40]):
+            for i, (nm, c, p, s) in enumerate(triples[:40] if kind == 'valid' else triples[:25]):
                 if c[0] & 0xfe != 0xc0 or not in_domain(s) or not taproot.control_size_ok(c):
                     continue
                 cid = 'q%d.%d' % (idx, i)
-                sess.append((cid, nm, c, p, s, ['N ' + cid, 'SV 3', 'FL %d' % (STANDARD & ~F["DISCOURAGE_OP_SUCCESS"]), 'SC ' + hexs(s), 'TCE %s %s %s' % (c.hex(), p.hex(), hexs(s)), 'XD - none 1000', 'SU', 'CS']))
+                sess.append((cid, nm, c, p, s, ['N ' + cid, 'SV 3', 'FL %d' % (STANDARD & ~F["DISCOURAGE_OP_SUCCESS"]), 'SC ' + hexs(s), 'TCE %s %s %s' % (c.hex(), p.hex(), hexs(s)), 'XD - none 1000', 'SU', 'CS', 'S', 'S', 'CS']))
             events, crashes, hangs = run_harness_cases(bindir, [(x[0], x[5]) for x in sess], wd)
             for cr in crashes:
                 part.violation('crash:session:' + cr.key, dict(id=cr.case_id, log=cr.log[-1500:]))
@@ -208,6 +208,15 @@ def worker(job):
                 if ok_phase != want_ok:
                     part.violation('session-commitment-verdict-differs', wit)
                     continue
+                if not want_ok:
+                    # a failed commitment stays failed: stepping again (step, step, continue) must not get past it
+                    first_fail = next(i for i, e in enumerate(steps) if not e.ret)
+                    later = steps[first_fail + 1:]
+                    part.count('steps_after_failed_commitment', 'n', len(later))
+                    if any(e.ret for e in later) or any(e.tcei == -1 for e in later):
+                        wit['after_failure'] = [(e.ret, e.tcei, e.done) for e in later]
+                        part.violation('session-continues-after-failed-commitment', wit)
+                        continue
                 if want_ok:
                     leaf = taproot.tapleaf_hash(s)
                     after = steps[m]
